@@ -88,6 +88,20 @@ theorem copy_onto_protected_refused (cfg : Cfg) (s : State) (w : Who) (now : Int
     rw [guarded_some_eq _ _ _ _ (lockCheck_refuses bk hl w now true k [] v (by simpa [target] using ht) hp)]
     exact ⟨rfl, errR_code_ne _⟩
 
+/-- **Completing a multipart upload onto a protected current version is refused and changes nothing**
+(the upload itself stays in progress). -/
+theorem complete_onto_protected_refused (cfg : Cfg) (s : State) (w : Who) (now : Int) (b k id : Bytes)
+    (parts : List (Nat × Bytes)) (mpEtag nv : Bytes) (bk : Bucket) (hb : findBucket s b = some bk) (hl : lockOn bk) (v : Ver)
+    (ht : (bk.versions k).head? = some v) (hp : Protected bk w now k v) :
+    (handle cfg s w now (.completeUpload b k id parts mpEtag nv)).1 = s ∧
+    (handle cfg s w now (.completeUpload b k id parts mpEtag nv)).2.code ≠ "" := by
+  simp only [handle, withBucket, hb]
+  apply guarded_cases (P := fun r => r.1 = s ∧ r.2.code ≠ "")
+  · intro e _; exact ⟨rfl, errR_code_ne _⟩
+  · intro _
+    rw [guarded_some_eq _ _ _ _ (lockCheck_refuses bk hl w now true k [] v (by simpa [target] using ht) hp)]
+    exact ⟨rfl, errR_code_ne _⟩
+
 /-- **A batch delete that names a protected version is refused as a whole.** -/
 theorem batch_with_protected_refused (cfg : Cfg) (s : State) (w : Who) (now : Int) (b : Bytes)
     (keys : List (Bytes × Bytes)) (bypass : Bool) (nvs : List Bytes) (bk : Bucket)
